@@ -1,4 +1,5 @@
 import WS.Model.Handshake
+import WS.Proofs.Handshake
 /-
   C11 — Accept upgrades only valid WebSocket requests and answers them correctly (decision logic).
 -/
@@ -16,38 +17,78 @@ def Upgradable (r : Req) : Prop :=
 
 /-- **the request is accepted iff it satisfies every condition**, in whatever order the code tests them. -/
 theorem accept_iff (r : Req) : verifyClientRequest r = 0 ↔ Upgradable r := by
-  sorry
+  unfold verifyClientRequest Upgradable
+  split
+  · rename_i h
+    simp at h
+    simp
+    intro hh
+    omega
+  have hv : (r.protoMajor > 1 ∨ (r.protoMajor = 1 ∧ r.protoMinor ≥ 1)) := by
+    rename_i h
+    simp at h
+    omega
+  split
+  · simp_all
+  split
+  · simp_all
+  split
+  · simp_all
+  split
+  · simp_all
+  split
+  · simp_all
+  · split
+    · split <;> simp_all
+    · simp_all
+  · rename_i h1 h2 h3 h4 h5 l h6 h7
+    simp_all
 
 /-- every rejection carries an HTTP error status. -/
 theorem reject_status (r : Req) (h : verifyClientRequest r ≠ 0) : verifyClientRequest r ≥ 400 := by
-  sorry
+  revert h
+  unfold verifyClientRequest
+  repeat' split
+  all_goals simp
 
 /-- a header "contains the token" iff some comma-separated element of some header line, trimmed,
 equals it case-insensitively — across several header lines and several tokens per line. -/
 theorem token_iff (h : Hdr) (key tok : Str) :
     headerContainsToken h key tok = true ↔
       ∃ v ∈ h.values key, ∃ t ∈ splitOnChar ',' (trimSpace v), equalFold (trimSpace t) tok = true := by
-  sorry
+  simp [headerContainsToken, headerTokens]
 
 /-- the selected subprotocol is the first server-preferred protocol that the client offered (in the
 client's spelling), or none. -/
 theorem selectSubprotocol_spec (r : Req) (sps : List Str) :
     selectSubprotocol r sps =
       ((sps.findSome? (fun sp => (headerTokens r.hdr (s "Sec-Websocket-Protocol")).find? (fun cp => equalFold sp cp))).getD []) := by
-  sorry
+  unfold selectSubprotocol
+  simp only
+  induction sps with
+  | nil => simp [selectSubprotocol.go]
+  | cons sp rest ih =>
+    simp only [selectSubprotocol.go, List.findSome?_cons]
+    split
+    · rename_i cp h; simp [h]
+    · rename_i h; simp [h, ih]
 
 /-- base64 (RFC 4648) decodes what it encodes, for every byte string. -/
 theorem b64_roundtrip (b : Bytes) : b64Decode (b64Encode b) = some b := by
-  sorry
+  exact Proofs.Handshake.b64Decode_b64Encode b
 
 /-- the encoding of n bytes has 4·⌈n/3⌉ characters; a 16-byte key has 24 and a SHA-1 digest 28. -/
 theorem b64_length (b : Bytes) : (b64Encode b).length = 4 * ((b.length + 2) / 3) := by
-  sorry
+  induction b using b64Encode.induct with
+  | case1 => simp [b64Encode]
+  | case2 a => simp [b64Encode]
+  | case3 a b => simp [b64Encode]
+  | case4 a b c rest ih => simp [b64Encode, ih]; omega
 
 theorem sha1_length (m : Bytes) : (sha1 m).length = 20 := by
-  sorry
+  simp [sha1, Proofs.Handshake.u32be_length]
 
 theorem accept_value_length (key : Str) : (secWebSocketAccept key).length = 28 := by
-  sorry
+  simp [secWebSocketAccept, b64_length, sha1_length]
 
 end WS.Props.C11
